@@ -75,7 +75,7 @@ func watchdog(f func() Outcome) (Outcome, bool) {
 	select {
 	case o := <-done:
 		return o, true
-	case <-time.After(5 * time.Second):
+	case <-time.After(2 * time.Second):
 		return Outcome{}, false
 	}
 }
@@ -110,7 +110,8 @@ func readAll(rep *Report, src string, tag string) {
 		}
 		idx := rep.Add(rt.wire+encSrc(src), line, rt.name+" "+pretty, nontrivial, "route:"+rt.name, "class:"+line[:1])
 		if !ok {
-			rep.Violate(idx, rt.name+" did not return within 5s", pretty)
+			rep.Violate(idx, rt.name+" did not return within 2s", pretty)
+			emergencyFlush(rep)
 		} else if o.Panic != nil {
 			rep.Violate(idx, fmt.Sprintf("%s panicked: %v", rt.name, o.Panic), pretty)
 		} else if o.Err == nil { // PRINT of the result terminates and returns a string
@@ -133,7 +134,8 @@ func readAll(rep *Report, src string, tag string) {
 		o, ok := watchdog(func() Outcome { return Guard(run) })
 		rep.Histogram["oracle-only:"+name]++
 		if !ok {
-			rep.Violate(-1, name+" did not return within 5s", pretty)
+			rep.Violate(-1, name+" did not return within 2s", pretty)
+			emergencyFlush(rep)
 		} else if o.Panic != nil {
 			rep.Violate(-1, fmt.Sprintf("%s panicked: %v", name, o.Panic), pretty)
 		}
@@ -153,7 +155,7 @@ func runC05(tier string, seed uint64, rep *Report) {
 		"comment, placeholder, keyword, constructor brackets, newline, an invalid UTF-8 byte, NUL, number prefixes; (ii) every prefix and every single-rune deletion of " +
 		"well-formed texts (truncation anywhere); (iii) seeded random token soups; (iv) texts that straddle the scanner's 1024-byte buffer with multi-byte runes and long tokens. " +
 		"Each text goes through the scanner (token kinds, texts, lines vs the model), READ (with and without module), Read_str with placeholder values, READ with an environment " +
-		"(each vs the model), READWithPreamble and the read-string builtin (direct oracle only), then PRINT. Direct oracle: panic or 5 s watchdog. " +
+		"(each vs the model), READWithPreamble and the read-string builtin (direct oracle only), then PRINT. Direct oracle: panic or 2 s watchdog. " +
 		"Non-trivial: the text contains a delimiter, quote, reader macro or placeholder character."
 	maxLen := 3
 	if tier == "thorough" {
